@@ -7,20 +7,6 @@ import Spydr.Eblif.LemmasParse
 
 namespace Spydr.Eblif
 
-def connWord (c : String × String) : String := c.1 ++ "=" ++ c.2
-
-def infoLine : InfoStmt → List String
-  | InfoStmt.cname n => [".cname", n]
-  | InfoStmt.attr k v => [".attr", k, v]
-  | InfoStmt.param k v => [".param", k, v]
-
-def subcktKw (gate : Bool) : String := if gate then ".gate" else ".subckt"
-
-/-- the lines of one instance statement, as an independent writer renders them -/
-def subcktLines (gate : Bool) (m : String) (conns : List (String × String)) (info : List InfoStmt) :
-    List (List String) :=
-  ([subcktKw gate, m] ++ conns.map connWord) :: info.map infoLine
-
 theorem splitEqGo_append (l r : List Char) (h : '=' ∉ l) :
     ∀ acc : List Char, splitEqGo acc (l ++ '=' :: r) = some (acc ++ l, r) := by
   induction l with
